@@ -39,6 +39,11 @@ props = {
    "trusted_base": [T_SSA, T_SOLV, T_HTML, T_REPARSE, T_IO, T_RE, T_STR, "ground facts normalise(\"script\") == \"script\", normalise(\"style\") == \"style\" (axiom normalise-script; evaluated on the real normaliseElementName by the selftest)"],
    "not_decided": ["letter-case folding of tag names is the tokenizer's (T3: tag names arrive ASCII-lower-cased)"],
    "level_text": "Proof for all policies (including ones that name script/style, match them by pattern or un-skip their content) and all token streams: with allowUnsafe false, every write site carries emitC05: no start/end/self-closing tag named script or style is serialised, and a text token that directly follows a script/style start tag (its raw text, T3) is never written."},
+ "C12": {"title": "Forced attributes: crossorigin=anonymous and iframe sandbox",
+   "runs": [{"fn": [P+"sanitizeAttrs", P+"init"], "beh": ""}], "timeout": 20, "min_obligations": 100,
+   "trusted_base": [T_SSA, T_SOLV, T_STR, "strings.Join(elems, sep) is a function of the element sequence and the separator; strings.Fields returns a fresh slice (T7)"],
+   "not_decided": ["that splitting the emitted value at ASCII whitespace yields exactly the joined tokens (a fact about strings.Join/Fields and token syntax: the listed tokens contain no whitespace)"],
+   "level_text": "Proof for all policies and attribute lists: sanitizeAttrs ensures that with requireCrossOriginAnonymous every audio/img/link/script/video result that has attributes contains a crossorigin attribute and every crossorigin attribute has the value anonymous; and that with requireSandboxOnIFrame every iframe result that has attributes contains a sandbox attribute and every sandbox value is empty or strings.Join(tokens, \" \") of pairwise distinct tokens each of which the policy lists (inner-loop invariant relating cleanVals and cleanValsSet)."},
  "C16": {"title": "I/O failures are reported and the output stays a clean prefix",
    "runs": [{"fn": SAN + [P+"sanitizeWithBuff", P+"SanitizeReader", P+"SanitizeReaderToWriter", "(*bluemonday.asStringWriter).WriteString"], "beh": ""}], "timeout": 15, "min_obligations": 60,
    "trusted_base": [T_SSA, T_SOLV, T_HTML, T_IO],
